@@ -17,6 +17,7 @@
 -/
 import AdfProofs.NamespaceLemmas
 import AdfProofs.FileReadLemmas
+import AdfProofs.WriteReadLemmas
 import AdfProps.C01
 import AdfProps.C15
 namespace Adf.C06
@@ -94,5 +95,13 @@ theorem C06_buffer_is_disk_content (c : Cfg) (h : FileH) (s : St) :
 /-- entry metadata is a function of the header block alone -/
 theorem C06_metadata_function_of_block (b1 b2 : Blk) (h : b1 = b2) : entBlock2Entry b1 = entBlock2Entry b2 := by
   rw [h]
+
+/-- what `adfWriteEntryBlock` stores, `adfReadEntryBlock` accepts (C03 side of read compatibility): after a successful
+    write of a well-formed header struct the sector holds a valid entry block, namely the struct with its checksum -/
+theorem C06_written_entry_is_readable (c : Cfg) (v n : Nat) (e : Blk) (s : St) (hf : s.faultAt = none)
+    (hr : Readable c v n) (hrw : (c.vol v).readOnly = false) (hwf : BlkWF e) (hty : e.w F_type = T_HEADER) :
+    ∃ s', run c (writeEntryBlock v n e) s = (.ok rcOK, s') ∧ s'.faultAt = none ∧ s'.mem = s.mem ∧
+          EntryAt c s'.disk v n (withSum e F_checkSum) :=
+  writeEntryBlock_establishes c v n e s hf hr hrw hwf hty
 
 end Adf.C06
